@@ -298,6 +298,7 @@ def verify_function(qualname, contract, schema, timeout_ms=10000, contracts=None
     def run(ch):
         it = Interp(mod, schema, mode=contract.get("mode", "REAL"), contracts=contracts or {})
         it.families = schema.get("__families__")
+        it.concrete_new = set(contract.get("concrete_new", ()))
         if contract.get("class_module"):
             it.class_module = source.load(contract["class_module"])
             for cname, (cnode, cbases) in it.class_module.classes.items():
